@@ -75,6 +75,14 @@ def k1(ctx, rid):
                 if m.name != 'map_err' or not m.args or op_local(m.args[0]) not in carry:
                     continue
                 for a in m.args[1:]:
+                    k = core.op_const(a)
+                    if k and 'fn' in k:
+                        # `.map_err(Error::from)` / `.map_err(IntoBincode..::into_bincode_if_unexpected_eof)`: a function item
+                        pth = (k['fn'].get('res') or k['fn'].get('path') or '') + ' ' + k['fn'].get('full', '')
+                        if is_read and 'into_bincode_if_unexpected_eof' in pth:
+                            conv = m
+                        if is_decode and 'error::Error' in pth and ('::from' in pth):
+                            conv = m
                     l = op_local(a)
                     if l is not None and f.locals[l].get('h') == 'closure':
                         cl = prog.fns[f.locals[l]['a'][0]]
